@@ -90,7 +90,9 @@ CLAIMED = {
          "bodies up to 5 MiB in arbitrary pieces, trailers and concurrent requests: ORACLE = the pass-through specification. "
          "(4) The response-body path inside the HTTP/2 server as one statement (C08_Body.lean): however a body is cut into DATA "
          "frames within the frame-size limit, the octets the framer writes, read back frame by frame, give exactly the body, with "
-         "END_STREAM on the last frame only and the rest of the connection untouched (body_over_frames, body_any_cuts). "
+         "END_STREAM on the last frame only and the rest of the connection untouched (body_over_frames, body_any_cuts); the status "
+         "gates of that path, regenerated from the source and compared on every code 0..1100: every three-digit status is accepted, "
+         "a body is refused only for 1xx / 204 / 304 (gen_ok_status, every_three_digit_status_accepted, body_refused_iff). "
          "dataBuffer/pipe models are tied to the code by an exact differential incl. the chunk structure"),
    note=("PARTIAL: net/http, httputil.ReverseProxy and the transports are standard-library code (contracts modelled and exercised); "
          "the response path inside the HTTP/2 server: cutting (C20 Consume theorems) and framing + read-back (body_over_frames) are "
@@ -122,7 +124,9 @@ CLAIMED = {
          "or batched plus the bytes still buffered for open streams is at least the initial window and the batched part stays "
          "< 4096 (rx_no_credit_lost, by a ledger invariant through every branch), tied to the real serverConn by an exact "
          "differential of every WINDOW_UPDATE, RST_STREAM and GOAWAY; peer-side ledgers evaluated on the implementation's own "
-         "frames turn a disagreement into a concrete failing input. Constants regenerated"),
+         "frames turn a disagreement into a concrete failing input. Constants regenerated. Enforcement at both levels (C12_Enforce.lean): a DATA frame on an open stream whose flow-controlled length exceeds the stream's or the "
+         "connection's receive window draws RST_STREAM(FLOW_CONTROL_ERROR) before anything else, one within both is never reset "
+         "(takeInflows_refuses_iff, rx_window_exceeded_is_flow_control, rx_within_windows_accepted)"),
    note=("PARTIAL: the receive-side theorem is the connection-level ledger (stream-level windows are covered by the differential); "
          "the transport model covers one upload of unknown length per connection; the transport's RECEIVE side (response bodies) "
          "has no Lean model: its connection-credit ledger is evaluated on the real transport's own WINDOW_UPDATE frames (h2trx). D14 (double connection-level refund after "
@@ -251,11 +255,19 @@ CLAIMED = {
          "(headers_padded_roundtrip) and with both (headers_padded_priority_roundtrip), CONTINUATION for a reader that expects "
          "it (continuation_roundtrip), PUSH_PROMISE without and with padding (push_promise_roundtrip, "
          "push_promise_padded_roundtrip), PRIORITY, RST_STREAM, SETTINGS (any list, order kept), PING, GOAWAY and WINDOW_UPDATE, each for "
-         "every parameter value the writer accepts; the reader is a total function. Exact differential on all Write* methods and on the reader over written / raw / mutated / "
+         "every parameter value the writer accepts, and extension frames of EVERY unknown type octet (raw_unknown_roundtrip); the reader is a total function. "
+         "Across frames: any cutting of a header block into HEADERS + CONTINUATION frames reads back as exactly those fragments, END_HEADERS "
+         "last, no block left open (header_block_over_frames), and the HPACK decoder fed fragment by fragment yields what one write of the "
+         "whole block yields (header_block_fields, via C18 fragment_independence); while a block is open the reader hands out nothing but "
+         "a CONTINUATION of it, extension frames included (in_header_block_only_continuation, raw_unknown_in_header_block). Facts "
+         "REGENERATED from frame.go on every run — parser table, frame types, flag bits, typeFrameParser's fallback, the tests of "
+         "checkFrameOrder in order, size constants — are pinned by gen_ok_* and tied to the model (model_dispatch_matches_table). Exact differential on all Write* methods and on the reader over written / raw / mutated / "
          "truncated bytes under several read limits; ORACLES: read-back of everything the writer accepts, CONTINUATION reassembly"),
-   note=("PARTIAL: the reassembly of a header block over CONTINUATION frames with HPACK decoding and field validation "
-         "(ReadMetaHeaders) is decided by the read-back oracles, every single frame layout by theorem. Trusted: Lean kernel + standard axioms; harness. Found and fixed D13"),
-   technique="Lean 4 theorems over a full executable codec model + differential with read-back oracle",
+   note=("PARTIAL: ReadMetaHeaders' field validation, header-list size limit and its deliberate dependence on fragmentation once a "
+         "field was invalid or the list too large (the decoder's emit switch is not in the model) are decided by the read-back oracles; "
+         "every single frame layout, the fragment sequence and the decoding of a valid block are theorems. C19_Block imports C18's "
+         "fragment theorem, so an edit to hpack can break C19's build too. Trusted: Lean kernel + standard axioms; harness. Found and fixed D13"),
+   technique="Lean 4 theorems over a full executable codec model and regenerated frame facts + differential with read-back oracle",
    design='7/C19'),
  'C20': dict(
    text=("Proof (Lean 4). Round-robin scheduler model (writeQueue, Consume, ring) and the random scheduler as an arbitrary choice "
@@ -279,7 +291,9 @@ CLAIMED = {
          "(C20_PrioWin.lean), for every tree, comparator and throttle state: what is handed out is the oldest frame of some "
          "node's queue, whole or cut, within the stream window, connection window and max frame size as they stood at the call "
          "(prio_pop_fifo_within_windows, via walk_spec over walkReadyInOrder), a Pop reporting nothing touched no queue, window "
-         "or throttle limit (prio_pop_none_keeps), control frames first (control_first_prio)"),
+         "or throttle limit (prio_pop_none_keeps), control frames first (control_first_prio); Pop changes exactly ONE queue — the "
+         "head of one node's queue leaves or is shortened by the piece, every other queue is untouched (prio_pop_exact) — and Push "
+         "appends to exactly one queue in every reachable state (prio_push_exact_reachable)"),
    note=("PARTIAL: conservation over whole operation sequences is proved for round robin and random; for the priority scheduler "
          "per-Pop FIFO / windows / control-first and the tree clause are theorems, conservation over sequences and 'nothing only when "
          "nothing is sendable' are decided by the trace oracle on the differential. sort.Sort is modelled as insertion sort (<= 12 siblings). "
